@@ -58,11 +58,13 @@ def explore(tier, seed_, years=scenarios.YEARS, per_year=None, replays=True, sna
     for year in years:
         for k, (force, counts, ov) in enumerate(DIRECTED):
             rng = random.Random("dir-%d-%d-%d" % (seed_, year, k))
-            p = scenarios.Profile(rng, year=year, nc=False, itemize=False, sched1_adjust=False, ira=False, qualified_div=False, foreign_tax=False,
-                                  hsa_you=False, hsa_spouse=False, f8606=False, div_heavy=False, dup_w2=False, plain_payers=True, **force)
+            base = dict(nc=False, itemize=False, sched1_adjust=False, ira=False, qualified_div=False, foreign_tax=False,
+                        hsa_you=False, hsa_spouse=False, f8606=False, div_heavy=False, dup_w2=False, plain_payers=True)
+            base.update(force)
+            p = scenarios.Profile(rng, year=year, **base)
             p.n = dict({"w-2": 1, "1099-int": 0, "1099-div": 0, "1099-r": 0, "1099-g": 0, "1098": 0, "1099-oid": 0}, **counts)
             tid += 1
-            tr, res, solver, ans = scenarios.solve_scenario(year, ["1040"], p, rng, tid=tid, snap=snap, overrides=dict(ov))
+            tr, res, solver, ans = scenarios.solve_scenario(year, ["1040"], p, rng, tid=tid, snap=snap, overrides={k2.replace("{year}", str(year)): v2 for k2, v2 in ov.items()})
             out.append({"year": year, "request": ["1040"], "profile": p.describe(), "given": dict(ans.given), "kinds": dict(ans.kinds),
                         "trace": tr, "res": res, "variants": [], "sid": "%d/d%d" % (year, k)})
     return out
@@ -75,6 +77,26 @@ DIRECTED = [
      {}, {"1040.dependent_1_odc": "yes", "1040_s8812.advance_ctc_payments": "3250.00", "w-2:0.box_1": "100000.00", "w-2:0.box_2": "9000.00"}),
     ({"status": "MarriedFilingJointly", "dependents": 3, "ctc": [True, True, False, False], "under6": [True, False, False, False], "wage_scale": 120000},
      {}, {"1040.dependent_2_odc": "yes", "1040_s8812.advance_ctc_payments": "1500.00", "w-2:0.box_1": "140000.00", "w-2:0.box_2": "15000.00"}),
+    # a high earner (Additional Medicare Tax, Form 8959) with withholding that is not from a W-2
+    ({"status": "Single", "dependents": 0, "wage_scale": 230000},
+     {}, {"w-2:0.box_1": "230000.00", "w-2:0.box_3": "147000.00", "w-2:0.box_5": "230000.00", "w-2:0.box_2": "45000.00", "w-2:0.box_6": "3605.00",
+          "1040.other_federal_withholding": "500.00", "1040.estimated_tax_payments": "1000.00"}),
+    # Form 8606 part I: an IRA that fell below its basis (basis above year-end value + distributions): the nontaxable ratio is capped at 1
+    ({"status": "Single", "dependents": 0, "wage_scale": 60000, "ira": True, "f8606": True},
+     {"1099-r": 1},
+     {"1099-r:0.box_1": "4000.00", "1099-r:0.box_2a": "4000.00", "1099-r:0.box_7_ira_sep_simple": "yes", "1099-r:0.belongs_to": "taxpayer",
+      "8606:you.part_1_needed": "yes", "8606:you.distribution_or_roth_conversion": "yes", "8606:you.traditional_basis": "30000.00",
+      "8606:you.nondeductible_contributions": "0.00", "8606:you.nondeductible_contributions_next_year": "0.00",
+      "8606:you.year_end_value_non_roth": "16000.00", "8606:you.distributions_{year}": "4000.00", "8606:you.net_converted": "0.00",
+      "8606:you.part_2_needed": "no", "8606:you.part_3_needed": "no", "w-2:0.box_1": "70000.00", "w-2:0.box_2": "8000.00"}),
+    # ... and the ordinary case (basis a fraction of the value)
+    ({"status": "Single", "dependents": 0, "wage_scale": 60000, "ira": True, "f8606": True},
+     {"1099-r": 1},
+     {"1099-r:0.box_1": "6000.00", "1099-r:0.box_2a": "6000.00", "1099-r:0.box_7_ira_sep_simple": "yes", "1099-r:0.belongs_to": "taxpayer",
+      "8606:you.part_1_needed": "yes", "8606:you.distribution_or_roth_conversion": "yes", "8606:you.traditional_basis": "10000.00",
+      "8606:you.nondeductible_contributions": "2000.00", "8606:you.nondeductible_contributions_next_year": "500.00",
+      "8606:you.year_end_value_non_roth": "44000.00", "8606:you.distributions_{year}": "6000.00", "8606:you.net_converted": "0.00",
+      "8606:you.part_2_needed": "no", "8606:you.part_3_needed": "no", "w-2:0.box_1": "70000.00", "w-2:0.box_2": "8000.00"}),
 ]
 
 
